@@ -252,8 +252,8 @@ def r_filter(ctx):
                 add_reject(nd, x, pol, tn)
         elif t[0] == 'un' and t[1] == 'not':
             add_reject(nd, t[2], not pol, tn)
-        elif is_call(t, 'builtins.any') and pol and len(t[2]) == 1 and t[2][0][0] == 'comp' and len(t[2][0][3]) == 1 \
-                and not t[2][0][3][0][1]:
+        elif is_call(t, 'builtins.any') and pol and len(t[2]) == 1 and t[2][0][0] == 'comp' and len(t[2][0][3]) >= 1 \
+                and not any(g_[1] for g_ in t[2][0][3]):
             add_reject(nd, t[2][0][2], True, tn)        # rejected when some element satisfies the test
         elif is_call(t, 'builtins.all') and not pol and len(t[2]) == 1 and t[2][0][0] == 'comp' and len(t[2][0][3]) == 1 \
                 and not t[2][0][3][0][1]:
@@ -293,6 +293,23 @@ def r_filter(ctx):
                     run.check(okr, 'R-FILTER', f, 'run-pattern=r+1', nd.lineno, 'forbidden run is r+1 equal letters of ACGT',
                               'the forbidden homopolymer pattern is %s; required letter * (max_homopolymer_runs + 1) for each '
                               'letter of ACGT' % show(needle)[:80], inputs='runs of exactly r or r+1 letters')
+                elif p and hay[0] == 'iter' and hay[1][0] in ('tuple', 'list') and len(hay[1]) >= 2 and needle[0] == 'iter':
+                    # `motif in strand for strand in (s, <transformed s>)`: a motif occurs on the opposite strand iff its reverse
+                    # complement occurs in s, i.e. iff the motif occurs in the reverse complement of s
+                    for item in hay[1][1:]:
+                        if item[0] == 'v' and item[1] == judged:
+                            found['motif'] += 1
+                        else:
+                            found['rc'] += 1
+                            check_revcomp(ctx, f, item, nd, of_judged=judged)
+                elif p and needle[0] == 'iter' and needle[1][0] in ('tuple', 'list') and len(needle[1]) >= 2:
+                    # `for pattern in (motif, <its reverse complement>)`: each item of the display is a needle of its own
+                    for item in needle[1][1:]:
+                        if item[0] == 'iter':
+                            found['motif'] += 1
+                        else:
+                            found['rc'] += 1
+                            check_revcomp(ctx, f, item, nd)
                 elif p and needle[0] == 'iter':
                     found['motif'] += 1
                 elif p:
@@ -327,6 +344,24 @@ def r_filter(ctx):
                 (isinstance(x, ast.Slice) and isinstance(x.step, ast.UnaryOp)) or (isinstance(x, ast.Name) and x.id in rev_names)
                 for x in ast.walk(c_.value)):
             rc_ing = True       # a helper that returns the reverse complement
+    if not rc_ing:
+        # the ingredients of a reverse complement anywhere in the class (a nested generator, a helper, a translate table): present
+        # but arranged in a way this rule does not follow - not absent
+        # ... unless the only reversal feeds a variable that is never read again (the test was deleted, the computation left)
+        own_defs = {id(n_) for a_ in ast.walk(scope) if isinstance(a_, ast.Assign) and len(a_.targets) == 1 and
+                    isinstance(a_.targets[0], ast.Name) and a_.targets[0].id in rev_names for n_ in ast.walk(a_.value)}
+        read_elsewhere = {n_.id for n_ in ast.walk(scope) if isinstance(n_, ast.Name) and isinstance(n_.ctx, ast.Load) and
+                          n_.id in rev_names and id(n_) not in own_defs}
+        dead_assign_nodes = {id(n_) for a_ in ast.walk(scope) if isinstance(a_, ast.Assign) and len(a_.targets) == 1 and
+                             isinstance(a_.targets[0], ast.Name) and a_.targets[0].id in rev_names and
+                             a_.targets[0].id not in read_elsewhere for n_ in ast.walk(a_.value)}
+        for x in ast.walk(scope):
+            if id(x) in dead_assign_nodes:
+                continue
+            if (isinstance(x, ast.Slice) and isinstance(x.step, ast.UnaryOp)) or \
+                    (isinstance(x, ast.Call) and isinstance(x.func, ast.Name) and x.func.id == 'reversed') or \
+                    (isinstance(x, ast.Call) and isinstance(x.func, ast.Attribute) and x.func.attr in ('translate', 'maketrans')):
+                rc_ing = True
     valid_src = ast.unparse(f.cls) if f.cls is not None else ast.unparse(f.node)
     ingredients = {'char': char_ing, 'run': valid_src.count('max_homopolymer_runs') >= 4,
                    'motif': valid_src.count('undesired_motifs') >= 4, 'rc': rc_ing}
@@ -366,7 +401,28 @@ def r_filter(ctx):
         run.ok('R-FILTER', f, 'rule-never-skipped', f.node.lineno, '%d guarding conditions are configuration / arm guards' % n)
 
 
-def check_revcomp(ctx, f, t, nd):
+def _translate_table(t):
+    """str.maketrans("ACGT", "TGCA") / {ord("A"): "T", ...} / {65: "T", ...} -> {letter: letter} or None"""
+    if t[0] == 'call' and ((t[1][0] == 'attr' and t[1][2] == 'maketrans') or t[1] == ('g', 'builtins.str.maketrans')) and \
+            len(t[2]) == 2 and all(a[0] == 'c' and isinstance(a[1], str) for a in t[2]) and len(t[2][0][1]) == len(t[2][1][1]):
+        return dict(zip(t[2][0][1], t[2][1][1]))
+    if t[0] == 'dict':
+        out = {}
+        for kv in t[1:]:
+            k, v = kv
+            if is_call(k, 'builtins.ord') and len(k[2]) == 1 and k[2][0][0] == 'c':
+                k = ('c', ord(k[2][0][1]))
+            if k[0] == 'c' and isinstance(k[1], int) and v[0] == 'c' and isinstance(v[1], str):
+                out[chr(k[1])] = v[1]
+            elif k[0] == 'c' and isinstance(k[1], str) and len(k[1]) == 1 and v[0] == 'c' and isinstance(v[1], str):
+                out[k[1]] = v[1]
+            else:
+                return None
+        return out
+    return None
+
+
+def check_revcomp(ctx, f, t, nd, of_judged=None):
     run = ctx.run
     # peel upper() / [::-1] / replace chain; simulate the chain on "ACGT" (term interpretation, nothing is executed)
     ops = []
@@ -414,9 +470,13 @@ def check_revcomp(ctx, f, t, nd):
                 x[2][0][0] == 'c' and x[2][1][0] == 'c':
             ops.append(('replace', x[2][0][1], x[2][1][1]))
             x = x[1][1]
-        elif x[0] == 'call' and x[1][0] == 'attr' and x[1][2] == 'translate':
-            run.undecided('R-FILTER', f, 'reverse-complement', nd.lineno, 'translate-table form not interpreted')
-            return
+        elif x[0] == 'call' and x[1][0] == 'attr' and x[1][2] == 'translate' and len(x[2]) == 1:
+            tab = _translate_table(x[2][0])
+            if tab is None:
+                run.undecided('R-FILTER', f, 'reverse-complement', nd.lineno, 'translate table %s not interpreted' % show(x[2][0])[:50])
+                return
+            ops.append(('table', tab))
+            x = x[1][1]
         else:
             base = x
             break
@@ -425,6 +485,8 @@ def check_revcomp(ctx, f, t, nd):
     for op in reversed(ops):
         if op[0] == 'replace':
             s = s.replace(op[1], op[2])
+        elif op[0] == 'table':
+            s = ''.join(op[1].get(ch, ch) for ch in s)
         elif op[0] == 'upper':
             s = s.upper()
         elif op[0] == 'lower':
@@ -432,7 +494,7 @@ def check_revcomp(ctx, f, t, nd):
         elif op[0] == 'rev':
             nrev += 1
     okmap = s == 'TGCA'
-    interpreted = any(op[0] == 'replace' for op in ops)
+    interpreted = any(op[0] in ('replace', 'table') for op in ops)
     if not interpreted:
         run.undecided('R-FILTER', f, 'complement-map', nd.lineno, 'the complement is not built by a replace chain this rule interprets')
         return
@@ -441,6 +503,11 @@ def check_revcomp(ctx, f, t, nd):
     run.check(nrev % 2 == 1, 'R-FILTER', f, 'complement-reversed', nd.lineno, 'the complement is reversed',
               'the complemented motif is %s: the reverse complement must be reversed exactly once'
               % ('not reversed' if nrev == 0 else 'reversed %d times' % nrev), inputs='non-palindromic motifs')
+    if of_judged is not None:
+        run.check(base is not None and base[0] == 'v' and base[1] == of_judged, 'R-FILTER', f, 'complement-of-the-judged-string',
+                  nd.lineno, 'the opposite strand is built from the judged string',
+                  'the opposite strand is built from %s' % (show(base)[:60] if base else None), nontrivial=False)
+        return
     run.check(base is not None and base[0] == 'iter', 'R-FILTER', f, 'complement-of-the-motif', nd.lineno,
               'built from the motif being tested', 'the reverse complement is built from %s' % (show(base)[:60] if base else None),
               nontrivial=False)
